@@ -633,15 +633,16 @@ class Length(object):
             if other.amount == 0.0:
                 self.amount = 0.0
                 return self
-            if self.units == other.units:
-                self.amount *= other.amount
-                return self
             if self.units == "%":
+                # A percentage of a length, also of one that is itself a percentage.
                 self.units = other.units
                 self.amount = self.amount * other.amount / 100.0
                 return self
             elif other.units == "%":
                 self.amount = self.amount * other.amount / 100.0
+                return self
+            if self.units == other.units:
+                self.amount *= other.amount
                 return self
         raise ValueError
 
